@@ -1,6 +1,6 @@
 (* Executable model of libstrophe's XEP-0198 stream-management bookkeeping (definitions only, no proofs).
 
-   Mirrors, with the fixes fixes/C04-1..4.patch and fixes/C05-1.patch applied:
+   Mirrors, with the fixes fixes/C04-1..4.patch and fixes/C05-1.patch applied (they are in /repo by now):
      src/event.c  xmpp_run_once, send phase (write loop, numbering sm_h = sm_sent_nr++, move to the SM queue)
      src/conn.c   _send_raw / send_raw / send_stanza (queueing, the <r/> piggy-back, r_sent), _conn_sm_handle_stanza
                   (<r/>, <a h>, inbound count), _handle_stream_stanza, _handle_stream_end, conn_disconnect,
@@ -346,6 +346,7 @@ Definition handle_sm (bind_text : list Z) (st : state) (el : smel) : state * lis
   let st := set_h_sm st false in
   match el with
   | SmEnabled ra id =>
+      if negb (sm_enabled st) then sm_err st else      (* we asked to resume, not to enable *)
       let st := set_handled_nr st 0 in
       let accepted :=
         if ra then match id with
